@@ -132,8 +132,13 @@ func genFragment(r *term.Rng, c string, team []string) string {
 			fmt.Fprintf(&sb, "return skill(%s); ", ev())
 		}
 	default:
-		fmt.Fprintf(&sb, "let n = 0; for let i = 0; i < %d; i = i + 1 { %s} "+
-			"if n > 0 { return skill(%s); } return attack(%s); ", r.Range(1, 3),
+		skip := ""
+		if r.Bool() {
+			// a three-clause loop whose body continues: the post statement must still run
+			skip = fmt.Sprintf("if i == %d { continue; } ", r.Intn(2))
+		}
+		fmt.Fprintf(&sb, "let n = 0; for let i = 0; i < %d; i = i + 1 { %s%s} "+
+			"if n > 0 { return skill(%s); } return attack(%s); ", r.Range(1, 3), skip,
 			ifThen(genCond(r, c), "n = n + 1;"), ev(), ev())
 	}
 	sb.WriteString("}); ")
